@@ -890,6 +890,9 @@ func init() {
 // ---------- sequential driving of library goroutines, CRC, AEAD ----------
 
 func (ex *Exec) crcChain(bs []*Term) *Term {
+	if len(bs) == 0 {
+		return ex.ts.Const(32, 0) // the checksum of the empty string is 0
+	}
 	h := ex.ts.Const(32, 0xffffffff)
 	for _, b := range bs {
 		h = ex.ts.UF("crcstep", 32, h, b)
